@@ -11,16 +11,16 @@ import (
 // ---------------------------------------------------------------------------
 
 type Scenario struct {
-	Prop    string         `json:"prop"`
-	Seed    int64          `json:"seed"`
-	Sched   SchedKnobs     `json:"sched"`
-	HC      HCKnobs        `json:"hc"`
-	Targets []TargetSpec   `json:"targets"`
-	Actors  []ActorSpec    `json:"actors"`
-	Server  bool           `json:"server_mode,omitempty"` // run a real http.Server in front of the handler
-	Pages   map[string]string `json:"pages,omitempty"`  // custom error page dir content (name -> template), used by services with ErrorPages
-	Params  map[string]int `json:"params,omitempty"`    // property specific integers
-	Note    string         `json:"note,omitempty"`
+	Prop    string            `json:"prop"`
+	Seed    int64             `json:"seed"`
+	Sched   SchedKnobs        `json:"sched"`
+	HC      HCKnobs           `json:"hc"`
+	Targets []TargetSpec      `json:"targets"`
+	Actors  []ActorSpec       `json:"actors"`
+	Server  bool              `json:"server_mode,omitempty"` // run a real http.Server in front of the handler
+	Pages   map[string]string `json:"pages,omitempty"`       // custom error page dir content (name -> template), used by services with ErrorPages
+	Params  map[string]int    `json:"params,omitempty"`      // property specific integers
+	Note    string            `json:"note,omitempty"`
 }
 
 type HCKnobs struct {
@@ -70,14 +70,14 @@ type Op struct {
 	TLS        bool          `json:"tls,omitempty"`
 	Upgrade    bool          `json:"upgrade,omitempty"`
 	AbortAfter time.Duration `json:"abort_after,omitempty"`
-	Raw        string        `json:"raw,omitempty"` // server mode: raw request bytes
-	Parts      []string      `json:"parts,omitempty"`    // server mode: further pieces written after Raw, PartGap apart
+	Raw        string        `json:"raw,omitempty"`   // server mode: raw request bytes
+	Parts      []string      `json:"parts,omitempty"` // server mode: further pieces written after Raw, PartGap apart
 	PartGap    time.Duration `json:"part_gap,omitempty"`
-	Frag       int           `json:"frag,omitempty"`     // server mode: client->proxy bytes delivered in fragments of this size
+	Frag       int           `json:"frag,omitempty"` // server mode: client->proxy bytes delivered in fragments of this size
 	FragGap    time.Duration `json:"frag_gap,omitempty"`
 	NoReqID    bool          `json:"no_req_id,omitempty"` // server mode: do not send X-Request-Id
-	Tag        string        `json:"tag,omitempty"` // free label for oracles
-	Hold       *Hold         `json:"hold,omitempty"` // directed stall of this operation's goroutine
+	Tag        string        `json:"tag,omitempty"`       // free label for oracles
+	Hold       *Hold         `json:"hold,omitempty"`      // directed stall of this operation's goroutine
 }
 
 type SvcOpts struct {
